@@ -345,7 +345,7 @@ def mech(groups, pre, marker, got, exp):
     return "unexplained:" + "+".join(parts) + ":" + ",".join(sorted({t[0] for t in diff}))
 
 
-def judge(res, st, pre, marker, groups, prev=False):
+def judge(res, st, pre, marker, groups, prev=False, fresh=None):
     from sigma.exceptions import SigmaError
 
     case = {"prev_rule": prev, "pre": list(pre), "marker": marker, "groups": [g if g is None else [g[0], (list(g[1]) if g[0] == "list" else T.print_min(g[1])), *g[2:]] for g in groups]}
@@ -360,13 +360,15 @@ def judge(res, st, pre, marker, groups, prev=False):
         add_violation(res, f"crash:{type(e).__name__}", case, "applies", repr(e)[:200])
         return
     if prev:  # differential oracle: a pipeline that processed another rule before behaves like a fresh one
-        fresh = run_impl(pre, marker, groups, False)
+        if fresh is None:
+            fresh = run_impl(pre, marker, groups, False)
         st.state([pre, marker, sorted(got), "prev"])
         res["outcomes"].add(h64(sorted(got)))
         res["nontrivial"].add(h64(case))
         if (got, applied) != fresh[:2]:
             add_violation(res, "after-previous-rule:differs-from-fresh-pipeline", dict(case, _groups=repr(groups)), [sorted(fresh[0]), fresh[1]], [sorted(got), applied])
         return
+    res["_last"] = (got, applied)
     exp, R = run_ref(pre, marker, groups)
     st.state([pre, marker, sorted(got)])
     res["outcomes"].add(h64(sorted(got)))
@@ -567,17 +569,20 @@ def run_shard(shard, tier, seed):
             if idx % 8 == shard[1]:
                 st.history()
                 judge(res, st, pre, marker, groups)
+        res.pop("_last", None)
         return res
     for idx, (pre, marker, groups) in enumerate(space(tier)):
         if idx % NSH != shard:
             continue
         st.history()
+        res.pop("_last", None)
         judge(res, st, pre, marker, groups)
         if any(g is not None and any(n in ("app_m0", "app_ps", "st_kv", "st_ne") for n in _names(g)) for g in groups) and len(pre) <= 1:
             st.history()
-            judge(res, st, pre, marker, groups, prev=True)  # same pipeline object after another rule
+            judge(res, st, pre, marker, groups, prev=True, fresh=res.get("_last"))  # same pipeline object after another rule
         if len(res["samples"]) < 2 and groups[2] is not None and groups[2][0] == "expr":
             res["samples"].append({"pre": list(pre), "marker": marker, "field_name_group": T.print_min(groups[2][1])})
+    res.pop("_last", None)
     return res
 
 
